@@ -123,6 +123,9 @@ impl Ctx {
 
   pub fn subspace(&self, name: &str, completed: bool, cases: u64) {
     self.subspaces.lock().unwrap().push((name.to_string(), completed, cases));
+    if std::env::var("VERIF_TIMING").is_ok() {
+      eprintln!("[timing] {:7.2}s part {:?} after sub-space: {}", self.start.elapsed().as_secs_f64(), part(), &name[..name.len().min(60)]);
+    }
   }
 
   pub fn outcome(&self, name: &str, n: u64) {
